@@ -53,6 +53,8 @@ HOSTILE = ["", " ", "   ", "\n", "\n\n", "   \n", "   \nSummary", "\n   \n   \nS
            ":param x:", ":type", ":type x: ```", "Args:", "Args:\n", "Returns:", "Returns:\n  ", "Parameters\n----------",
            "Parameters\n----------\n", "Returns\n-------\n", "Raises:\n", "```", "``` ```", "x :", ":", ":return:", ":rtype:",
            "Defaults to", "Defaults to ```", "Summary\n\n   \n", "  \n  \n  \nx\n  \n", "\r\n", " \n \n \n \n \n",
+           # white-space only lines, then a last line of blanks and one / two characters (a docstring cut right after its first token)
+           " \n a", "  \n  \n  b", "\t\n\t:", " \n ab", "\n a", "   \n   \n x", " \n\n a", " \n :",
            # what a formatter, a template engine or a regular expression would interpret
            "%", "50% is typical", "drop 50%", "%s", "%(default)s", "100%% sure", "{", "}", "{}", "{0", "\\", "\\1", "(", "[", "*",
            "a|b", "$", "^", "?", "'", '"', "#", ";", ",", ".", "..", "..."]
